@@ -382,7 +382,7 @@ func routerLoop(res *affResult) *affLoop {
 	}
 	// an index loop `for i := range routes { r := &routes[i] ... }`: the element reference plays the value variable's part
 	for _, l := range res.loops {
-		if l.parent == nil && l.full && l.elem != "" && l.valVar == "" {
+		if l.parent == nil && l.full && l.elem != "" && (l.valVar == "" || l.valVar == l.elem) {
 			l.valVar = l.elem
 			return l
 		}
@@ -640,7 +640,17 @@ func runAff2(m *Model, r *RuleResult) {
 				}
 				il := items[1].star
 				wantOver := l.valVar + ".ns[1:len(" + l.valVar + ".ns) + -1]"
-				if il.kind != "range" || il.backward || il.over != wantOver {
+				nodeName := il.valVar
+				// the same interior as a counting loop: for i := 1; i < len(r.ns)-1; i++ { n := r.ns[i] ... }
+				interiorIndex := false
+				if il.kind == "for" && il.keyVar != "" && il.forPost == il.keyVar+"++" && il.initLin != nil && il.lastLin != nil {
+					wantLast := linAtom("len("+l.valVar+".ns)").add(linConst(2), -1)
+					if il.initLin.isConst() && il.initLin.k == 1 && il.lastLin.String() == wantLast.String() {
+						interiorIndex = true
+						nodeName = l.valVar + ".ns[" + il.keyVar + "]"
+					}
+				}
+				if !interiorIndex && (il.kind != "range" || il.backward || il.over != wantOver) {
 					bad = append(bad, "bends are produced by iterating "+il.over+" (backward="+fmt.Sprint(il.backward)+"), expected a forward range over "+wantOver)
 				}
 				for _, bp := range il.paths {
@@ -657,23 +667,7 @@ func runAff2(m *Model, r *RuleResult) {
 						bad = append(bad, "bend is not a point")
 						continue
 					}
-					bx, cx, ok1 := decomposeNode(x)
-					if !ok1 || bx != il.valVar || !coefEq(cx, map[string]float64{"X": 1, "W": 0.5}) || x.k != 0 {
-						bad = append(bad, "bend x = "+x.String()+", expected n.X + n.W/2")
-					}
-					// y = n.Y + 0.5 * <layer height of n>
-					okY := y.k == 0 && len(y.c) == 2 && y.c[il.valVar+".Y"] == 1
-					for a, c := range y.c {
-						if a == il.valVar+".Y" {
-							continue
-						}
-						if c != 0.5 || !strings.Contains(a, "Layers["+il.valVar+".Layer].H") {
-							okY = false
-						}
-					}
-					if !okY {
-						bad = append(bad, "bend y = "+y.String()+", expected n.Y + layer height/2")
-					}
+					bad = append(bad, bendFormula(x, y, nodeName)...)
 				}
 			}
 		}
